@@ -1,4 +1,4 @@
-(* C10 half (b): runs the extracted mirror of YaccParser on `<kind> <hexsrc> [fixed]`
+(* C10 half (b): runs the extracted mirror of YaccParser on `<kind> <hexsrc> [fc] [fa]`
    and prints the transcript format of harness/src/bin/c10yp.rs *)
 let unhex (s : string) : int list =
   (* hex -> bytes -> code points (input is valid UTF-8) *)
@@ -140,8 +140,9 @@ let () =
     | k :: h :: rest ->
       let kind = match k with "G" -> KGrmtools | "E" -> KEco | _ -> KOriginal in
       let src = if h = "-" then [] else List.map n_of_int (unhex h) in
-      let fixed = (rest = ["fixed"]) in
-      (match run_case fixed kind src with
+      (* optional flags: fc = repaired block-comment scan, fa = repaired action span *)
+      let fixed = List.mem "fc" rest and fixed_aspan = List.mem "fa" rest in
+      (match run_case fixed fixed_aspan kind src with
        | Panic -> "PANIC"
        | OutOfFuel -> "OUTOFFUEL"
        | Done THeader -> "HEADER"
